@@ -67,15 +67,23 @@ func qcases() []qcase {
 		}
 	}
 	return []qcase{
-		{"add-tables", func(d string) []schema.Change { w := qbuild(d); return []schema.Change{&schema.AddTable{T: w.a}, &schema.AddTable{T: w.b}} }, false},
+		{"add-tables", func(d string) []schema.Change {
+			w := qbuild(d)
+			return []schema.Change{&schema.AddTable{T: w.a}, &schema.AddTable{T: w.b}}
+		}, false},
 		{"add-table-b", func(d string) []schema.Change { w := qbuild(d); return []schema.Change{&schema.AddTable{T: w.b}} }, false},
-		{"drop-tables", func(d string) []schema.Change { w := qbuild(d); return []schema.Change{&schema.DropTable{T: w.a}, &schema.DropTable{T: w.b}} }, false},
+		{"drop-tables", func(d string) []schema.Change {
+			w := qbuild(d)
+			return []schema.Change{&schema.DropTable{T: w.a}, &schema.DropTable{T: w.b}}
+		}, false},
 		{"drop-table-a", func(d string) []schema.Change { w := qbuild(d); return []schema.Change{&schema.DropTable{T: w.a}} }, false},
 		{"add-column", mod(func(w *qworld, d string) []schema.Change {
 			_, strT := qtypes(d)
 			return []schema.Change{&schema.AddColumn{C: &schema.Column{Name: "y", Type: strT}}}
 		}), false},
-		{"drop-column", mod(func(w *qworld, d string) []schema.Change { return []schema.Change{&schema.DropColumn{C: w.a.Columns[1]}} }), false},
+		{"drop-column", mod(func(w *qworld, d string) []schema.Change {
+			return []schema.Change{&schema.DropColumn{C: w.a.Columns[1]}}
+		}), false},
 		{"modify-column", mod(func(w *qworld, d string) []schema.Change {
 			intT, _ := qtypes(d)
 			to := &schema.Column{Name: "x", Type: intT}
@@ -97,7 +105,9 @@ func qcases() []qcase {
 		{"add-unique-index", mod(func(w *qworld, d string) []schema.Change {
 			return []schema.Change{&schema.AddIndex{I: schema.NewUniqueIndex("a_u").AddColumns(w.a.Columns[1])}}
 		}), false},
-		{"drop-index", mod(func(w *qworld, d string) []schema.Change { return []schema.Change{&schema.DropIndex{I: w.a.Indexes[0]}} }), false},
+		{"drop-index", mod(func(w *qworld, d string) []schema.Change {
+			return []schema.Change{&schema.DropIndex{I: w.a.Indexes[0]}}
+		}), false},
 		{"modify-index", mod(func(w *qworld, d string) []schema.Change {
 			to := schema.NewUniqueIndex("a_x").AddColumns(w.a.Columns[1])
 			to.Table = w.a
@@ -115,7 +125,9 @@ func qcases() []qcase {
 			w.a.AddForeignKeys(fk)
 			return []schema.Change{&schema.ModifyTable{T: w.a, Changes: []schema.Change{&schema.AddForeignKey{F: fk}}}}
 		}, false},
-		{"drop-fk", mod(func(w *qworld, d string) []schema.Change { return []schema.Change{&schema.DropForeignKey{F: w.a.ForeignKeys[0]}} }), false},
+		{"drop-fk", mod(func(w *qworld, d string) []schema.Change {
+			return []schema.Change{&schema.DropForeignKey{F: w.a.ForeignKeys[0]}}
+		}), false},
 		{"modify-fk", mod(func(w *qworld, d string) []schema.Change {
 			f := w.a.ForeignKeys[0]
 			to := *f
@@ -147,12 +159,18 @@ func qcases() []qcase {
 			}
 		}, false},
 		// ---- must be refused ------------------------------------------------------------------------------
-		{"two-schemas", func(d string) []schema.Change { w := qbuild(d); return []schema.Change{&schema.AddTable{T: w.b}, &schema.AddTable{T: w.c}} }, true},
+		{"two-schemas", func(d string) []schema.Change {
+			w := qbuild(d)
+			return []schema.Change{&schema.AddTable{T: w.b}, &schema.AddTable{T: w.c}}
+		}, true},
 		{"two-schemas-modify", func(d string) []schema.Change {
 			w := qbuild(d)
 			return []schema.Change{&schema.DropTable{T: w.b}, &schema.ModifyTable{T: w.c, Changes: []schema.Change{&schema.DropIndex{I: w.c.Indexes[0]}}}}
 		}, true},
-		{"add-schema", func(d string) []schema.Change { w := qbuild(d); return []schema.Change{&schema.AddSchema{S: w.s}, &schema.AddTable{T: w.b}} }, true},
+		{"add-schema", func(d string) []schema.Change {
+			w := qbuild(d)
+			return []schema.Change{&schema.AddSchema{S: w.s}, &schema.AddTable{T: w.b}}
+		}, true},
 		{"drop-schema", func(d string) []schema.Change { w := qbuild(d); return []schema.Change{&schema.DropSchema{S: w.s}} }, true},
 		{"modify-schema", func(d string) []schema.Change {
 			w := qbuild(d)
@@ -167,7 +185,12 @@ func runQual() {
 	_ = postgres.DefaultPlan
 	for _, d := range []string{"mysql", "postgres"} {
 		for _, qc := range qcases() {
-			for _, req := range []string{"none", "q1"} {
+			reqs := []string{"none", "q1"}
+			if qc.mustReject {
+				// a custom qualifier that happens to be the name of one of the schemas involved changes nothing: still out of scope
+				reqs = append(reqs, marker, "other_"+marker)
+			}
+			for _, req := range reqs {
 				sc := &scenario{ID: len(cases) + 1, Dialect: d, Roles: qc.name, Req: req, Dir: "qual"}
 				cases = append(cases, sc)
 				sc.First = line + 1
